@@ -7,6 +7,7 @@ package load
 import (
 	"bufio"
 	"encoding/json"
+	"fmt"
 	"math"
 	"os"
 	"sync/atomic"
@@ -18,16 +19,24 @@ import (
 	"github.com/zeromicro/go-zero/core/timex"
 )
 
+type c02Cfg struct {
+	Window    int64  `json:"window"`
+	Buckets   int    `json:"buckets"`
+	Threshold int64  `json:"threshold"`
+	Via       string `json:"via"` // direct | group
+	Key       string `json:"key"` // group key
+}
+
+// One case = one process-wide scenario on a virtual clock: shedders are built ("new") at chosen
+// moments, directly or through ONE ShedderGroup, load.Disable() may be called in between, and
+// Allow / Pass / Fail operations on the different shedders are interleaved.
 type c02Case struct {
-	ID        int     `json:"id"`
-	Window    int64   `json:"window"`
-	Buckets   int     `json:"buckets"`
-	Threshold int64   `json:"threshold"`
-	T0        int64   `json:"t0"`
-	Enabled   bool    `json:"enabled"`
-	Via       string  `json:"via"`  // direct | group
-	Mode      string  `json:"mode"` // real (package's own checker) | split (checker replaced)
-	Ops       [][]any `json:"ops"`
+	ID       int      `json:"id"`
+	T0       int64    `json:"t0"`
+	Mode     string   `json:"mode"` // real (package's own checker) | split (checker replaced)
+	Group    *c02Cfg  `json:"group"`
+	Shedders []c02Cfg `json:"shedders"`
+	Ops      [][]any  `json:"ops"`
 }
 
 type c02Obs struct {
@@ -39,14 +48,19 @@ type c02Obs struct {
 	Rt    int64  `json:"rt"`
 	Am    int64  `json:"am"`
 	Ae    int    `json:"ae"`
+	Cm    int64  `json:"cm"` // maxFlight() just before the Allow = Cm * 2^Ce
+	Ce    int    `json:"ce"`
 	Other bool   `json:"other"` // an error other than ErrServiceOverloaded
+	Nop   bool   `json:"nop"`   // new: the constructor returned a nopShedder
+	Same  bool   `json:"same"`  // new: GetShedder(key) twice gave the same shedder, Close() = nil
+	Wm    int64  `json:"wm"`    // new: windowScale = Wm * 2^We
+	We    int    `json:"we"`
+	Bad   string `json:"bad,omitempty"`
 }
 
 type c02Out struct {
 	ID    int      `json:"id"`
 	Obs   []c02Obs `json:"obs"`
-	Same  bool     `json:"same"`
-	Nop   bool     `json:"nop"`
 	Tries int      `json:"tries"`
 	Err   string   `json:"err,omitempty"`
 }
@@ -70,27 +84,23 @@ func c02Dyadic(v float64) (int64, int) {
 	return int64(fr * (1 << 53)), e - 53
 }
 
-// runs one history; stable=false when the CPU gauge was changed behind our back
+func c02Opts(c c02Cfg) []ShedderOption {
+	return []ShedderOption{WithWindow(time.Duration(c.Window)), WithBuckets(c.Buckets), WithCpuThreshold(c.Threshold)}
+}
+
+// runs one scenario; stable=false when the CPU gauge was changed behind our back
 func c02Run(c c02Case, orig func(int64) bool) (out c02Out, stable bool) {
 	out.ID = c.ID
 	stable = true
 	timex.SetFakeNow(time.Duration(c.T0))
-	enabled.Set(c.Enabled)
-	defer enabled.Set(true)
-	opts := []ShedderOption{WithWindow(time.Duration(c.Window)), WithBuckets(c.Buckets), WithCpuThreshold(c.Threshold)}
-	var sh Shedder
-	out.Same = true
-	if c.Via == "group" {
-		g := NewShedderGroup(opts...)
-		s1 := g.GetShedder("k")
-		s2 := g.GetShedder("k")
-		out.Same = s1 == s2
-		sh = s1.(nopCloser).Shedder
-	} else {
-		sh = NewAdaptiveShedder(opts...)
+	enabled.Set(true)
+	defer enabled.Set(true) // white-box reset: the public API has no Enable()
+	var group *ShedderGroup
+	if c.Group != nil {
+		group = NewShedderGroup(c02Opts(*c.Group)...)
 	}
-	as, _ := sh.(*adaptiveShedder)
-	out.Nop = as == nil
+	shs := make([]Shedder, len(c.Shedders))
+	ass := make([]*adaptiveShedder, len(c.Shedders))
 	var cpu1, cpu2 int64
 	if c.Mode == "split" {
 		systemOverloadChecker = func(th int64) bool {
@@ -103,7 +113,8 @@ func c02Run(c c02Case, orig func(int64) bool) (out c02Out, stable bool) {
 	}
 	defer func() { systemOverloadChecker = orig }()
 	proms := map[int]Promise{}
-	snap := func(o *c02Obs) {
+	snap := func(k int, o *c02Obs) {
+		as := ass[k]
 		if as == nil {
 			return
 		}
@@ -118,20 +129,49 @@ func c02Run(c c02Case, orig func(int64) bool) (out c02Out, stable bool) {
 		kind, _ := op[0].(string)
 		o.K = kind
 		switch kind {
+		case "disable":
+			Disable()
+		case "new":
+			k := int(c02Int(op[1]))
+			timex.SetFakeNow(time.Duration(c02Int(op[2])))
+			cfg := c.Shedders[k]
+			o.Same = true
+			if cfg.Via == "group" {
+				s1 := group.GetShedder(cfg.Key)
+				s2 := group.GetShedder(cfg.Key)
+				o.Same = s1 == s2
+				nc, ok := s1.(nopCloser)
+				if !ok || nc.Close() != nil {
+					o.Same = false
+				}
+				shs[k] = s1
+				if ok {
+					ass[k], _ = nc.Shedder.(*adaptiveShedder)
+				}
+			} else {
+				shs[k] = NewAdaptiveShedder(c02Opts(cfg)...)
+				ass[k], _ = shs[k].(*adaptiveShedder)
+			}
+			o.Nop = ass[k] == nil
+			if ass[k] != nil {
+				o.Wm, o.We = c02Dyadic(ass[k].windowScale)
+			}
 		case "allow":
-			timex.SetFakeNow(time.Duration(c02Int(op[1])))
-			cpu1, cpu2 = c02Int(op[2]), c02Int(op[3])
-			if as != nil {
+			k := int(c02Int(op[1]))
+			timex.SetFakeNow(time.Duration(c02Int(op[2])))
+			cpu1, cpu2 = c02Int(op[3]), c02Int(op[4])
+			if as := ass[k]; as != nil {
 				o.Mp = as.maxPass()
 				o.Rt = int64(as.minRt())
+				o.Cm, o.Ce = c02Dyadic(as.maxFlight())
 			}
 			if c.Mode == "split" {
 				stat.VerifSetCpuUsage(cpu1)
 			} else {
 				stat.VerifSetCpuUsage(cpu2)
 			}
-			p, err := sh.Allow()
-			if as != nil && stat.CpuUsage() != cpu2 {
+			p, err := shs[k].Allow()
+			if ass[k] != nil && stat.CpuUsage() != cpu2 {
 				stable = false
 			}
 			if err != nil {
@@ -140,19 +180,25 @@ func c02Run(c c02Case, orig func(int64) bool) (out c02Out, stable bool) {
 			} else {
 				proms[i] = p
 			}
+			snap(k, &o)
 		case "pass":
-			if p, ok := proms[int(c02Int(op[1]))]; ok {
-				timex.SetFakeNow(time.Duration(c02Int(op[2])))
+			k := int(c02Int(op[1]))
+			if p, ok := proms[int(c02Int(op[2]))]; ok {
+				timex.SetFakeNow(time.Duration(c02Int(op[3])))
 				p.Pass()
 				o.Done = true
 			}
+			snap(k, &o)
 		case "fail":
-			if p, ok := proms[int(c02Int(op[1]))]; ok {
+			k := int(c02Int(op[1]))
+			if p, ok := proms[int(c02Int(op[2]))]; ok {
 				p.Fail()
 				o.Done = true
 			}
+			snap(k, &o)
+		default:
+			o.Bad = "unknown op " + kind
 		}
-		snap(&o)
 		out.Obs = append(out.Obs, o)
 	}
 	return out, stable
@@ -188,7 +234,17 @@ func TestVerifC02(t *testing.T) {
 		for {
 			tries++
 			var stable bool
-			out, stable = c02Run(c, orig)
+			func() {
+				defer func() {
+					if e := recover(); e != nil {
+						out = c02Out{ID: c.ID, Err: fmt.Sprint("panic: ", e)}
+						stable = true
+						enabled.Set(true)
+						systemOverloadChecker = orig
+					}
+				}()
+				out, stable = c02Run(c, orig)
+			}()
 			if stable || tries >= 20 {
 				if !stable {
 					out.Err = "cpu gauge unstable"
